@@ -137,8 +137,9 @@ impl World {
                 if eff.kind == "keep" && exists {
                     continue;
                 }
-                if eff.kind == "gen" && !eff.gen.is_empty() {
-                    // handled below for the manifest itself; other outputs are plain
+                if eff.kind == "gen" && !eff.gen.is_empty() && *o == self.inv.file {
+                    // the manifest itself is written below
+                    continue;
                 }
                 let content = format!("out of step {} at {}\n", s, self.clock + 1);
                 match self.write_file(o, content.as_bytes()) {
@@ -146,6 +147,11 @@ impl World {
                     Err(e) => {
                         notes.insert("werr".into(), json!(e));
                     }
+                }
+            }
+            if !eff.selfdisc.is_empty() && Path::new(&eff.selfdisc).exists() {
+                if let Ok(t) = self.write_file(&eff.selfdisc, b"rewritten by the command that reads it\n") {
+                    writes.push(json!({"path": eff.selfdisc, "mt": t}));
                 }
             }
             if eff.kind == "self" {
@@ -163,7 +169,13 @@ impl World {
                             writes.push(json!({"path": p, "mt": t}));
                         }
                     }
-                    if let Ok(t) = self.write_file(&name, v.text.as_bytes()) {
+                    let same = std::fs::read(&name).map(|b| b == v.text.as_bytes()).unwrap_or(false);
+                    if eff.keepmain && same {
+                        // write-if-changed generator: the text is what is on disk already
+                        writes.retain(|w| w["path"] != json!(name));
+                        self.manif.insert(name.clone(), v.g.clone());
+                        notes.insert("gen".into(), json!({"name": name, "g": v.g}));
+                    } else if let Ok(t) = self.write_file(&name, v.text.as_bytes()) {
                         // the manifest file is one of the step's outputs; report its final mtime
                         writes.retain(|w| w["path"] != json!(name));
                         writes.push(json!({"path": name, "mt": t}));
@@ -479,8 +491,8 @@ impl verif::Hooks for H {
     fn progress(&mut self, ev: ProgressEvent) {
         let mut w = self.0.borrow_mut();
         match ev {
-            ProgressEvent::Update(c) => {
-                w.ev(json!({"e":"pu","c":c.to_vec()}));
+            ProgressEvent::Update(c, total) => {
+                w.ev(json!({"e":"pu","c":c.to_vec(),"total":total}));
                 if w.over_limit() {
                     w.dead = Some("livelock".into());
                     drop(w);
